@@ -575,7 +575,9 @@ class MinFlowDecomp(pathmodel.AbstractPathModelDAG): # Note that we inherit from
 
         all_weights = set({int(self.G.edges[e][self.flow_attr]) for e in self.G.edges() if self.flow_attr in self.G.edges[e] and e not in self.edges_to_ignore})
         
-        self._lowerbound_k = max(self._lowerbound_k, math.ceil(math.log2(len(all_weights))))
+        # (no non-ignored edge carries a flow value, e.g. in a window of the subgraph scanning: nothing to derive)
+        if len(all_weights) > 0:
+            self._lowerbound_k = max(self._lowerbound_k, math.ceil(math.log2(len(all_weights))))
 
         # As in the k-models, the synthetic source/sink edges must not count towards the width
         self._lowerbound_k = max(self._lowerbound_k, stG.get_width(edges_to_ignore=list(stG.source_sink_edges) + list(self.edges_to_ignore)))
